@@ -626,7 +626,9 @@ def run_roots(P, w, n, nl, E, rng, stats, m, light=False):
         if pats is not None:
             stats['roots:pattern-answer-%s' % ('empty' if not raw else 'nonempty')] += 1
         if len(g) > 1:
-            stats['roots:collection-kinds:%s' % kinds] += 1
+            stats['roots:collection-size:%d' % len(g)] += 1
+            for kd in set(c[2] for c in g):
+                stats['roots:in-collection:%s' % kd] += 1
         stats['answer-size'].append(len(raw))
 
 
